@@ -130,9 +130,18 @@ def repeated_vertex_cells(model, mpolys):
 
 def exception_mech(family, repeated):
     def mech(exc):
-        if 'Could not find interior diagonal' in str(exc):
-            # mechanism predicate: the dataset holds a cell whose ring repeats a vertex (the ear clipper has no ear to find)
-            return 'no-interior-diagonal:repeated-vertex-cell' if repeated else 'no-interior-diagonal:' + family
+        text = str(exc)
+        if 'Could not find interior diagonal' in text:
+            # mechanism predicate of 'repeated-vertex-cell': the model holds a cell whose ring names one point twice AND the
+            # polygon the ear clipper gave up on (quoted in the message) names one point twice.  Anything else keeps its own key.
+            stuck_on_repeat = False
+            try:
+                import shapely
+                coords = list(shapely.from_wkt(text.split('! ', 1)[1]).exterior.coords)[:-1]
+                stuck_on_repeat = len(set(coords)) < len(coords)
+            except Exception:  # noqa: BLE001
+                pass
+            return 'no-interior-diagonal:repeated-vertex-cell' if (repeated and stuck_on_repeat) else 'no-interior-diagonal:' + family
         return 'triangulate-raised:' + family
     return mech
 
